@@ -51,7 +51,31 @@ def traceOracle (U : Universe) (P : Problem) (r : ImplSolve) : List String :=
       let d := match Resolvo.Abs.runD U P events with
         | .error (k, ev) => [s!"oracle-fail C05,C07,C08 mdet-decide-guard: event {k} of the solver history is a decision that the decision rule cannot produce (not the first undecided candidate, in cache order, of an unsatisfied requirement of a selected solvable): {repr ev}".replace "\n" " "]
         | .ok _ => ["info decide-guard ok"]
-      o ++ d ++ [s!"info trace-accepted events {events.length} clauses {st.db.length}"]
+      -- the conflict graph, its graphviz form and the user-friendly message: built by the exact model (Render.lean) from the
+      -- state of the accepted history itself - the very object `C03.edges_truthful` / `C04.message_rendering_terminates`
+      -- speak about - they must equal the real ones (edges as a set, the two texts byte for byte)
+      let hexOf (s : String) : String := s.toUTF8.toList.foldl (fun acc b =>
+        let dg (n : Nat) : Char := if n < 10 then Char.ofNat (48 + n) else Char.ofNat (87 + n)
+        acc.push (dg (b.toNat / 16)) |>.push (dg (b.toNat % 16))) ""
+      let msg := if r.result == "unsat" && !(r.graphNodes.isEmpty && r.graphEdges.isEmpty) then
+          let kinds := r.conflictClauses.map (fun cid => (st.db.getD cid default).kind)
+          let rg := Resolvo.Render.buildGraph U st.origins kinds
+          let rge := Resolvo.MDet.sortStr ((Resolvo.Render.nodeEdges rg).map (fun x => Resolvo.MDet.edgeStr ⟨x.1, x.2.1, x.2.2⟩))
+          if rge != r.graphEdges then
+            [s!"oracle-fail C03,C06 mdet-graph: the ordered graph model has other edges: implementation [{" ".intercalate r.graphEdges}] model [{" ".intercalate rge}]"]
+          else
+          let gvImpl := (r.other.find? (fun l => l.startsWith "graphviz-hex ")).map (fun l => (l.drop 13).toString)
+          if gvImpl.isSome && gvImpl != some (hexOf (Resolvo.Render.graphviz U rg)) then
+            [s!"oracle-fail C04,C06 mdet-graphviz: the graphviz form differs: implementation `{gvImpl.getD ""}` model `{hexOf (Resolvo.Render.graphviz U rg)}`"]
+          else if r.message.isEmpty || r.message.startsWith "panic" then []
+          else
+          match Resolvo.Render.render U rg with
+          | some text =>
+            if hexOf text == r.message then ["info mdet-message 1"]
+            else [s!"oracle-fail C04,C06 mdet-message: the user-friendly conflict message differs: implementation `{r.message}` model `{hexOf text}`"]
+          | none => ["oracle-fail C04 mdet-message-fuel: the model of the message renderer ran out of fuel"]
+        else []
+      o ++ d ++ msg ++ [s!"info trace-accepted events {events.length} clauses {st.db.length}"]
 
 open Resolvo.Graph in
 def parseNode (s : String) : Node :=
@@ -276,29 +300,7 @@ def mdetCompare (U : Universe) (ms : Resolvo.MDet.S) (o : Resolvo.MDet.Outcome) 
         else if mn != r.graphNodes then [s!"oracle-fail C03,C06 mdet-graph: conflict graph nodes differ: implementation [{" ".intercalate r.graphNodes}] model [{" ".intercalate mn}]"]
         else []
       else []
-    -- the user-friendly message: the model of `simplify` / `get_installable_set` / `DisplayUnsat` must produce the same bytes
-    let hexOf (s : String) : String := s.toUTF8.toList.foldl (fun acc b =>
-      let d (n : Nat) : Char := if n < 10 then Char.ofNat (48 + n) else Char.ofNat (87 + n)
-      acc.push (d (b.toNat / 16)) |>.push (d (b.toNat % 16))) ""
-    let msg := if mres == "unsat" && !r.message.isEmpty && !(r.message.startsWith "panic") then
-        let kinds := mconf.map (fun cid => (ms.clauses.getD cid default).kind)
-        let rg := Resolvo.Render.buildGraph U ms.origins kinds
-        -- the graph the message is rendered from (and `C03.edges_truthful` speaks about) has the real graph's edges
-        let rge := Resolvo.MDet.sortStr ((Resolvo.Render.nodeEdges rg).map (fun x => Resolvo.MDet.edgeStr ⟨x.1, x.2.1, x.2.2⟩))
-        if !(r.graphNodes.isEmpty && r.graphEdges.isEmpty) && rge != r.graphEdges then
-          [s!"oracle-fail C03,C06 mdet-graph: the ordered graph model has other edges: implementation [{" ".intercalate r.graphEdges}] model [{" ".intercalate rge}]"]
-        else
-        let gvImpl := (r.other.find? (fun l => l.startsWith "graphviz-hex ")).map (fun l => (l.drop 13).toString)
-        if gvImpl.isSome && gvImpl != some (hexOf (Resolvo.Render.graphviz U rg)) then
-          [s!"oracle-fail C04,C06 mdet-graphviz: the graphviz form differs: implementation `{gvImpl.getD ""}` model `{hexOf (Resolvo.Render.graphviz U rg)}`"]
-        else
-        match Resolvo.Render.render U rg with
-        | some text =>
-          if hexOf text == r.message then ["info mdet-message 1"]
-          else [s!"oracle-fail C04,C06 mdet-message: the user-friendly conflict message differs: implementation `{r.message}` model `{hexOf text}`"]
-        | none => ["oracle-fail C04 mdet-message-fuel: the model of the message renderer ran out of fuel"]
-      else []
-    g ++ msg ++ ["info mdet-exact 1"]
+    g ++ ["info mdet-exact 1"]
 
 def runSolve (lines : List String) : List String :=
   let caseLines := lines.filter (fun l => !l.startsWith "> ")
